@@ -458,18 +458,17 @@ def check_owner(ctx, P):
             if fn.name not in own:
                 bad = bad or ("%s called from %s" % (name, fn.name), c, "%s caller %s" % (name, fn.name))
                 continue
-            k = fn.key(fn.args(c)[0], resolve=True)
-            bv = base_var(k)
+            from rules import possible_values
             pd = {p["did"] for p in fn.params}
-            if not (is_field(k, S, ("schedule_from", "store_to", "queue_one", "queue_two")) and bv and bv[0] == "var"):
-                bad = bad or ("%s in %s on `%s`, not a deque field of the scheduler" % (name, fn.name, key_str(k)), c, "%s arg %s" % (name, fn.name))
-                continue
-            # the root must be the function's own scheduler parameter (directly or via a cast local)
-            root = strip(fn.args(c)[0])
-            rk = fn.key(root, resolve=True)
-            rb = base_var(rk)
-            if rb is None or rb[2] not in pd:
-                bad = bad or ("%s in %s: deque is not reached from the function's own scheduler argument" % (name, fn.name), c, "%s root %s" % (name, fn.name))
+            for v in possible_values(fn, fn.args(c)[0]):
+                k = fn.key(v, resolve=True)
+                bv = base_var(k)
+                if not (is_field(k, S, ("schedule_from", "store_to", "queue_one", "queue_two")) and bv and bv[0] == "var"):
+                    bad = bad or ("%s in %s on `%s`, not a deque field of the scheduler" % (name, fn.name, key_str(k)), c, "%s arg %s" % (name, fn.name))
+                    continue
+                # the root must be the function's own scheduler parameter (directly or via a cast local)
+                if bv[2] not in pd:
+                    bad = bad or ("%s in %s: deque is not reached from the function's own scheduler argument" % (name, fn.name), c, "%s root %s" % (name, fn.name))
     for fn, c in P.callers_of(STEAL):
         n += 1
         if fn.name != "fiber_scheduler_load_balance":
